@@ -1,0 +1,338 @@
+// Verification hooks. Compiled only with `--cfg j2inn_libhaystack_verif`; the crate is unchanged
+// without that flag.
+//
+// `defs::namespace` keeps two lazily filled caches in `dashmap::DashMap`s. To explore thread
+// interleavings of the real namespace code under a controlled scheduler, this module offers
+// look-alikes of exactly the subset of the `DashMap` API the namespace uses:
+//
+// * `DashMap` / `MapReadRef` with two back ends chosen (per constructing thread) by `set_mode`:
+//   `Real` wraps the genuine `dashmap::DashMap`; `Shim` is "N shards, each a reader/writer lock
+//   around a `HashMap`", which is DashMap's documented behaviour (a shared lock is granted
+//   whenever no writer holds the shard; an exclusive lock needs the shard free, so a thread that
+//   holds a read guard and inserts into the same shard deadlocks with itself). Every lock
+//   acquire/release of the Shim is routed to the `Scheduler` installed for the calling thread.
+// * the shard of a key is decided by a function installed by the harness (real DashMap hashes
+//   with a per-map `RandomState`, so any partition of the keys into shards can occur).
+// * `HashSet`, a wrapper with a fixed hasher: the namespace iterates hash sets to decide the order
+//   of its next cache operations; with `RandomState` that order changes from run to run and
+//   schedules could not be replayed.
+//
+// With the default mode (`Real`) and no scheduler installed the behaviour is that of the
+// original crate.
+
+use std::cell::{Cell, UnsafeCell};
+use std::collections::hash_map::DefaultHasher;
+use std::hash::{BuildHasherDefault, Hash, Hasher};
+use std::ops::{Deref, DerefMut};
+
+/// Lock operations of the Shim back end, as seen by the controlled scheduler.
+pub trait Scheduler: Sync {
+    /// Called before the lock is taken; returns once the lock is granted to the calling thread.
+    fn acquire(&self, lock: usize, exclusive: bool);
+    /// Called when the lock is given back.
+    fn release(&self, lock: usize, exclusive: bool);
+}
+
+#[derive(Clone, Copy, PartialEq, Eq, Debug)]
+pub enum Mode {
+    Real,
+    Shim,
+}
+
+/// Shard configuration of the maps constructed by this thread while in `Shim` mode.
+#[derive(Clone, Copy)]
+pub struct ShimConfig {
+    /// number of shards per map
+    pub shards: usize,
+    /// shard of a key, given the map's construction ordinal and the key's deterministic hash
+    pub shard_of: fn(map: usize, key_hash: u64) -> usize,
+    /// lock ids are `lock_base + map * shards + shard`
+    pub lock_base: usize,
+}
+
+thread_local! {
+    static MODE: Cell<Mode> = const { Cell::new(Mode::Real) };
+    static CONFIG: Cell<Option<ShimConfig>> = const { Cell::new(None) };
+    static NEXT_MAP: Cell<usize> = const { Cell::new(0) };
+    static SCHEDULER: Cell<Option<&'static dyn Scheduler>> = const { Cell::new(None) };
+}
+
+/// Back end of the maps this thread constructs from now on.
+pub fn set_mode(mode: Mode) {
+    MODE.with(|m| m.set(mode));
+}
+
+/// Shard configuration for the maps this thread constructs from now on (resets the map ordinal).
+pub fn set_shim_config(config: ShimConfig) {
+    CONFIG.with(|c| c.set(Some(config)));
+    NEXT_MAP.with(|n| n.set(0));
+}
+
+/// Scheduler that decides the Shim lock operations of the calling thread (None = uncontended,
+/// every acquire is granted at once).
+pub fn install_scheduler(scheduler: Option<&'static dyn Scheduler>) {
+    SCHEDULER.with(|s| s.set(scheduler));
+}
+
+/// Deterministic hash of a key (SipHash with fixed keys), the argument of `ShimConfig::shard_of`.
+pub fn key_hash<K: Hash + ?Sized>(key: &K) -> u64 {
+    let mut hasher = DefaultHasher::new();
+    key.hash(&mut hasher);
+    hasher.finish()
+}
+
+fn acquire(lock: usize, exclusive: bool) {
+    if let Some(s) = SCHEDULER.with(|s| s.get()) {
+        s.acquire(lock, exclusive);
+    }
+}
+
+fn release(lock: usize, exclusive: bool) {
+    if let Some(s) = SCHEDULER.with(|s| s.get()) {
+        s.release(lock, exclusive);
+    }
+}
+
+type FixedState = BuildHasherDefault<DefaultHasher>;
+
+struct Shard<K, V> {
+    lock: usize,
+    map: UnsafeCell<std::collections::HashMap<K, V, FixedState>>,
+}
+
+struct ShimMap<K, V> {
+    map_ordinal: usize,
+    config: ShimConfig,
+    shards: Vec<Shard<K, V>>,
+}
+
+// The scheduler serialises all accesses: a shard's map is only touched by the thread that was
+// granted that shard's lock.
+unsafe impl<K: Send, V: Send> Send for ShimMap<K, V> {}
+unsafe impl<K: Send + Sync, V: Send + Sync> Sync for ShimMap<K, V> {}
+
+impl<K: Eq + Hash, V> ShimMap<K, V> {
+    fn new() -> Self {
+        let config = CONFIG.with(|c| c.get()).unwrap_or(ShimConfig {
+            shards: 1,
+            shard_of: |_, _| 0,
+            lock_base: 0,
+        });
+        let map_ordinal = NEXT_MAP.with(|n| {
+            let v = n.get();
+            n.set(v + 1);
+            v
+        });
+        let shards = (0..config.shards.max(1))
+            .map(|i| Shard {
+                lock: config.lock_base + map_ordinal * config.shards.max(1) + i,
+                map: UnsafeCell::new(std::collections::HashMap::default()),
+            })
+            .collect();
+        ShimMap {
+            map_ordinal,
+            config,
+            shards,
+        }
+    }
+
+    fn shard(&self, key: &K) -> &Shard<K, V> {
+        let idx = (self.config.shard_of)(self.map_ordinal, key_hash(key)) % self.shards.len();
+        &self.shards[idx]
+    }
+}
+
+enum Backend<K, V> {
+    Real(dashmap::DashMap<K, V>),
+    Shim(ShimMap<K, V>),
+}
+
+/// Look-alike of `dashmap::DashMap` (the subset `defs::namespace` uses).
+pub struct DashMap<K, V> {
+    backend: Backend<K, V>,
+}
+
+/// Look-alike of `dashmap::mapref::one::Ref`.
+pub enum MapReadRef<'a, K, V> {
+    Real(dashmap::mapref::one::Ref<'a, K, V>),
+    Shim {
+        lock: usize,
+        value: &'a V,
+        _key: std::marker::PhantomData<&'a K>,
+    },
+}
+
+impl<K: Eq + Hash, V> Deref for MapReadRef<'_, K, V> {
+    type Target = V;
+
+    fn deref(&self) -> &V {
+        match self {
+            MapReadRef::Real(r) => r.value(),
+            MapReadRef::Shim { value, .. } => value,
+        }
+    }
+}
+
+impl<K, V> Drop for MapReadRef<'_, K, V> {
+    fn drop(&mut self) {
+        if let MapReadRef::Shim { lock, .. } = self {
+            release(*lock, false);
+        }
+    }
+}
+
+impl<K: Eq + Hash, V> Default for DashMap<K, V> {
+    fn default() -> Self {
+        DashMap {
+            backend: match MODE.with(|m| m.get()) {
+                Mode::Real => Backend::Real(dashmap::DashMap::default()),
+                Mode::Shim => Backend::Shim(ShimMap::new()),
+            },
+        }
+    }
+}
+
+impl<K: Eq + Hash + std::fmt::Debug, V: std::fmt::Debug> std::fmt::Debug for DashMap<K, V> {
+    fn fmt(&self, f: &mut std::fmt::Formatter<'_>) -> std::fmt::Result {
+        match &self.backend {
+            Backend::Real(m) => m.fmt(f),
+            Backend::Shim(_) => f.write_str("DashMap(shim)"),
+        }
+    }
+}
+
+impl<K: Eq + Hash, V> DashMap<K, V> {
+    pub fn get(&self, key: &K) -> Option<MapReadRef<'_, K, V>> {
+        match &self.backend {
+            Backend::Real(m) => m.get(key).map(MapReadRef::Real),
+            Backend::Shim(m) => {
+                let shard = m.shard(key);
+                acquire(shard.lock, false);
+                // Shared lock held: nobody writes this shard's map.
+                let found = unsafe { (*shard.map.get()).get(key) };
+                match found {
+                    Some(value) => Some(MapReadRef::Shim {
+                        lock: shard.lock,
+                        value,
+                        _key: std::marker::PhantomData,
+                    }),
+                    None => {
+                        release(shard.lock, false);
+                        None
+                    }
+                }
+            }
+        }
+    }
+
+    pub fn contains_key(&self, key: &K) -> bool {
+        match &self.backend {
+            Backend::Real(m) => m.contains_key(key),
+            Backend::Shim(m) => {
+                let shard = m.shard(key);
+                acquire(shard.lock, false);
+                let found = unsafe { (*shard.map.get()).contains_key(key) };
+                release(shard.lock, false);
+                found
+            }
+        }
+    }
+
+    pub fn insert(&self, key: K, value: V) -> Option<V> {
+        match &self.backend {
+            Backend::Real(m) => m.insert(key, value),
+            Backend::Shim(m) => {
+                let shard = m.shard(&key);
+                acquire(shard.lock, true);
+                // Exclusive lock held: no reader holds a reference into this shard's map.
+                let old = unsafe { (*shard.map.get()).insert(key, value) };
+                release(shard.lock, true);
+                old
+            }
+        }
+    }
+
+    /// All entries, for cache snapshots. Only call while no other thread uses the map.
+    pub fn verif_entries(&self) -> Vec<(K, V)>
+    where
+        K: Clone,
+        V: Clone,
+    {
+        match &self.backend {
+            Backend::Real(m) => m
+                .iter()
+                .map(|e| (e.key().clone(), e.value().clone()))
+                .collect(),
+            Backend::Shim(m) => m
+                .shards
+                .iter()
+                .flat_map(|s| {
+                    unsafe { &*s.map.get() }
+                        .iter()
+                        .map(|(k, v)| (k.clone(), v.clone()))
+                        .collect::<Vec<_>>()
+                })
+                .collect(),
+        }
+    }
+}
+
+/// `std::collections::HashSet` with a fixed hasher (deterministic iteration order).
+#[derive(Clone, Debug)]
+pub struct HashSet<T> {
+    inner: std::collections::HashSet<T, FixedState>,
+}
+
+impl<T> HashSet<T> {
+    pub fn new() -> Self {
+        HashSet {
+            inner: std::collections::HashSet::default(),
+        }
+    }
+}
+
+impl<T> Default for HashSet<T> {
+    fn default() -> Self {
+        Self::new()
+    }
+}
+
+impl<T> Deref for HashSet<T> {
+    type Target = std::collections::HashSet<T, FixedState>;
+
+    fn deref(&self) -> &Self::Target {
+        &self.inner
+    }
+}
+
+impl<T> DerefMut for HashSet<T> {
+    fn deref_mut(&mut self) -> &mut Self::Target {
+        &mut self.inner
+    }
+}
+
+impl<T> IntoIterator for HashSet<T> {
+    type Item = T;
+    type IntoIter = std::collections::hash_set::IntoIter<T>;
+
+    fn into_iter(self) -> Self::IntoIter {
+        self.inner.into_iter()
+    }
+}
+
+impl<'a, T> IntoIterator for &'a HashSet<T> {
+    type Item = &'a T;
+    type IntoIter = std::collections::hash_set::Iter<'a, T>;
+
+    fn into_iter(self) -> Self::IntoIter {
+        self.inner.iter()
+    }
+}
+
+impl<T: Eq + Hash> FromIterator<T> for HashSet<T> {
+    fn from_iter<I: IntoIterator<Item = T>>(iter: I) -> Self {
+        HashSet {
+            inner: iter.into_iter().collect(),
+        }
+    }
+}
